@@ -28,6 +28,15 @@ type Workspace struct {
 	cachedCommodities map[string]bool
 	cachedAccounts    map[string]bool
 	index             *WorkspaceIndex
+	openText          func(path string) (string, bool)
+}
+
+// SetOpenTextProvider tells the workspace where to find the text of files that are open in
+// the editor: a file that enters the include tree is read from there before the disk.
+func (w *Workspace) SetOpenTextProvider(f func(path string) (string, bool)) {
+	w.mu.Lock()
+	defer w.mu.Unlock()
+	w.openText = f
 }
 
 func NewWorkspace(rootURI string, loader *include.Loader) *Workspace {
@@ -365,11 +374,18 @@ func (w *Workspace) addMissingReachableLocked(reachable map[string]bool) bool {
 		if w.index.FileIndex(path) != nil {
 			continue
 		}
-		content, err := os.ReadFile(path)
-		if err != nil {
-			continue
+		content, ok := "", false
+		if w.openText != nil {
+			content, ok = w.openText(path)
 		}
-		fileIndex, journal, _ := BuildFileIndexFromContent(path, string(content))
+		if !ok {
+			data, err := os.ReadFile(path)
+			if err != nil {
+				continue
+			}
+			content = string(data)
+		}
+		fileIndex, journal, _ := BuildFileIndexFromContent(path, content)
 		w.index.SetFileIndex(path, fileIndex)
 		w.updateIncludeEdgesLocked(path, nil, fileIndex.Includes)
 		w.updateResolvedLocked(path, journal)
